@@ -329,7 +329,8 @@ func c06AlphaEqual(r *Run, a, b string, f api.Format) bool {
 	return res.Equal
 }
 
-var c06AngleCallRe = regexp.MustCompile(`<[^<>;{}()]*>\s*\(`)
+// `a < T > (c)` and `a < T > `tpl``, T being anything TypeScript can read as a type argument (a name, a literal, …)
+var c06AngleCallRe = regexp.MustCompile("<\\s*(?:\"(?:[^\"\\\\]|\\\\.)*\"|'(?:[^'\\\\]|\\\\.)*'|[^<>;{}()\"']*)\\s*>\\s*[(`]")
 
 func firstLineDiff(a, b string) (string, string) {
 	la, lb := strings.Split(a, "\n"), strings.Split(b, "\n")
